@@ -547,6 +547,11 @@ func boundary(rng *hlib.Rng) []In {
 			Ticks: []Tick{{Fin: 3, Safe: 4, Latest: 9, Lpb: 20, L1ErrOnce: true}, {Fin: 3, Safe: 4, Latest: 9, Lpb: 20}, {Fin: 4, Safe: 4, Latest: 10, Lpb: 20, L1ErrOnce: true},
 				{Fin: 9, Safe: 9, Latest: 10, Lpb: 20}}})
 	}
+	// an injection fails, and before the next tick the root is on L2 after all (the failed transaction was mined in the end, or
+	// somebody else injected it): the oracle must look again before it injects; then the retry of a failure that left nothing behind
+	ins = append(ins, In{Kind: "boundary", Finality: "FinalizedBlock", Leaves: two,
+		Ticks: []Tick{{Fin: 3, Safe: 4, Latest: 9, Lpb: 20, InjectErr: true}, {Fin: 3, Safe: 4, Latest: 9, Lpb: 20, L2Add: []int{0}},
+			{Fin: 4, Safe: 4, Latest: 9, Lpb: 20, InjectErr: true}, {Fin: 4, Safe: 4, Latest: 9, Lpb: 20}, {Fin: 9, Safe: 9, Latest: 9, Lpb: 20}}})
 	// failures while the syncer lags
 	ins = append(ins, In{Kind: "boundary", Finality: "FinalizedBlock", Leaves: two,
 		Ticks: []Tick{{Fin: 4, Safe: 4, Latest: 9, Lpb: 2}, {Fin: 9, Safe: 9, Latest: 9, Lpb: 3, InfoErr: true}, {Fin: 9, Safe: 9, Latest: 9, Lpb: 3, L1Err: true},
